@@ -244,3 +244,91 @@ Theorem C05_accepts_nows_partial : forall inp fuel e,
     Ok (match eval e with AV z => EvValue (ValLit (VInt z)) | ADiv0 p => EvEvalErr (div0_err p) end).
 Proof. exact C05_accepts_nows. Qed.
 Print Assumptions C05_accepts_nows_partial.
+
+(* ---- added after CompleteTrim.v / ArithAccept.v: the partial acceptance theorems above are superseded ---- *)
+From Parsley Require Import CompleteTrim ArithAccept.
+Open Scope N_scope.
+(* FULL ACCEPTANCE (added after completeness was extended to trimming combinators, CompleteTrim.v): every well-formed expression — any white
+   space the grammar's modes allow, any length — is accepted: if the reference returns a value (or a division by zero) the engine
+   model's Evaluate returns the same, with C02's explicit fuel. *)
+Theorem C05_accepts :
+  forall (inp : input) (fuel : nat) (v : aval),
+  bytes_ok (i_data inp) ->
+  (fuel_bound inp arith_K arith_Sz <= fuel)%nat ->
+  arith_ref (i_data inp) (i_offset inp) = Some v ->
+  arith_evaluate inp fuel =
+  Ok match v with
+     | AV z => EvValue (ValLit (VInt z))
+     | ADiv0 p => EvEvalErr (div0_err p)
+     end.
+Proof. exact @ArithAccept.C05_accepts. Qed.
+Print Assumptions C05_accepts.
+
+(* The statement the earlier comment listed as missing: a well-formed expression never yields a parse error. *)
+Theorem C05_accepts_no_parse_error :
+  forall (inp : input) (fuel : nat) (v : aval),
+  bytes_ok (i_data inp) ->
+  (fuel_bound inp arith_K arith_Sz <= fuel)%nat ->
+  arith_ref (i_data inp) (i_offset inp) = Some v ->
+  exists ev : evaluated,
+    arith_evaluate inp fuel = Ok ev /\ (forall e : perr, ev <> EvParseErr e).
+Proof. exact @ArithAccept.C05_accepts_no_parse_error. Qed.
+Print Assumptions C05_accepts_no_parse_error.
+
+(* Model and reference agree on every input (bytes < 256): value, division by zero at the operator's position, or rejection. *)
+Theorem C05_agrees :
+  forall (inp : input) (fuel : nat),
+  bytes_ok (i_data inp) ->
+  (fuel_bound inp arith_K arith_Sz <= fuel)%nat ->
+  match arith_ref (i_data inp) (i_offset inp) with
+  | Some (AV z) => arith_evaluate inp fuel = Ok (EvValue (ValLit (VInt z)))
+  | Some (ADiv0 p) => arith_evaluate inp fuel = Ok (EvEvalErr (div0_err p))
+  | None => exists e : perr, arith_evaluate inp fuel = Ok (EvParseErr e)
+  end.
+Proof. exact @ArithAccept.C05_agrees. Qed.
+Print Assumptions C05_agrees.
+
+(* Engine completeness for the monotone fragment extended by LeftTrim/RightTrim in mode WsSpacesNl, Name and SuppressError over
+   clean operands, named SeqOf: every derivation compatible with the empty left-recursion context is returned. *)
+Theorem C05_complete_top_trim :
+  forall (inp : input) (rules : list pexpr) (site : N -> option pexpr) (cr : N -> bool),
+  wf_rules rules site ->
+  (forall (k : N) (body : pexpr), nth_N rules k = Some body -> monot cr body = true) ->
+  (forall (k : N) (body : pexpr), nth_N rules k = Some body -> Complete.endfree body = true) ->
+  (forall (k : N) (body : pexpr),
+   cr k = true -> nth_N rules k = Some body -> clean cr body = true) ->
+  forall (fuel : nat) (root : pexpr) (ns : list node) (cp : intset) 
+    (err : option perr) (c' : ctx),
+  wf rules site root ->
+  monot cr root = true ->
+  Complete.endfree root = true ->
+  run inp rules fuel root = Ok (ns, cp, err, c') ->
+  forall d : xtree,
+  xvalid inp rules root (i_offset inp) d ->
+  xcompat inp [] (i_offset inp) d -> In (xyield inp d) ns.
+Proof. exact @CompleteTrim.complete_top_trim. Qed.
+Print Assumptions C05_complete_top_trim.
+
+(* Sentence over such a grammar succeeds whenever some derivation consumes the whole input. *)
+Theorem C05_sentence_complete_trim :
+  forall (inp : input) (rules : list pexpr) (site : N -> option pexpr) (cr : N -> bool),
+  wf_rules rules site ->
+  (forall (k : N) (body : pexpr), nth_N rules k = Some body -> monot cr body = true) ->
+  (forall (k : N) (body : pexpr), nth_N rules k = Some body -> Complete.endfree body = true) ->
+  (forall (k : N) (body : pexpr),
+   cr k = true -> nth_N rules k = Some body -> clean cr body = true) ->
+  forall root : pexpr,
+  wf rules site root ->
+  monot cr root = true ->
+  Complete.endfree root = true ->
+  forall (fuel : nat) (t : Engine.top) (d : xtree),
+  parse_top inp rules fuel (sentence root) = Ok t ->
+  xvalid inp rules root (i_offset inp) d ->
+  nokeep d ->
+  xdend inp d = i_offset inp + i_len inp ->
+  exists (n0 : node) (c : ctx),
+    is_eof inp (node_rpos n0) = true /\
+    t = TopNode [handle_result (Complete.sq root) (i_offset inp) [n0; NEnd (node_rpos n0)]] c.
+Proof. exact @CompleteTrim.C04_sentence_complete_trim. Qed.
+Print Assumptions C05_sentence_complete_trim.
+
